@@ -73,6 +73,15 @@ class ExactTimeEvolution(TimeEvolution):
         """
         return expm(-1j * self._time_step_size * self.hamiltonian)
 
+    def set_num_time_steps_constant_final_time(self, num_time_steps: int):
+        """
+        Sets the number of time-steps and keeps the final time constant.
+
+        The time evolution operator is recomputed for the new time step size.
+        """
+        super().set_num_time_steps_constant_final_time(num_time_steps)
+        self._time_evolution_operator = self._compute_time_evolution_operator()
+
     def evaluate_operator(self, operator: Any) -> complex:
         """
         Evaluate an operator at the current time step.
